@@ -32,6 +32,9 @@ func parserScope(c *Ctx) []*ssa.Function {
 
 func c12() []*Ob {
 	return []*Ob{
+		{Prop: "C12", ID: "C12.11", Engine: "PROV(parse inputs)", Floor: 2,
+			Desc:  "a query means what the current mapping makes of it: every AST GrpcV1.parseQuery returns derives from parser.ParseSeqQL / parser.ParseQuery called in the same request with the provider's GetMapping(); an AST taken from a memo is accepted only when the lookup key derives from GetMapping() as well — a cache keyed by the query text alone outlives a mapping reload (keyword to text, field removed) and the store keeps searching with a tree that a fresh parse would not produce. The rule does not judge a cache that is invalidated by other means: it reports it",
+			Check: func(c *Ctx) { parsedAgainstCurrentMapping(c) }},
 		{Prop: "C12", ID: "C12.10", Engine: "PAIR(two sites)", Floor: 1,
 			Desc:  "the SeqQL parser never reaches its own `lexer is not end` panic: parsePipes succeeds only at the end of the input, or parseFieldList ends only in front of a pipe or at the end (its loop is the lexer's keyword test that includes the empty token)",
 			Check: func(c *Ctx) { pipesEndAtEndOfInput(c) }},
